@@ -932,6 +932,7 @@ func c09Encode(v reflect.Value, params string) (out []byte, ok bool, pan string)
 }
 
 type c09Case struct {
+	reuse  reflect.Value // pointer to a destination that already holds a previously decoded value of this type
 	t      *c09Ty
 	rt     reflect.Type
 	params string
@@ -999,6 +1000,28 @@ func c09DecodeCheck(out *verifkit.Out, c *c09Case, data []byte, mode string) {
 		return
 	}
 	out.T(op, "ok "+vs+" "+verifkit.Hex(res.rest))
+	// decoding into a destination that already holds a value: the result must not depend on what was there before
+	// (the model's `dec` has no such input at all) — same value, same rest as the fresh decode above
+	if strings.Contains(c.flags, "zw") {
+		return
+	}
+	if !c.reuse.IsValid() {
+		c.reuse = res.val.Addr()
+		return
+	}
+	out.Count("mode:reused-destination")
+	var rest2 []byte
+	var err2 error
+	before := c09ShowS(c.t, c.reuse.Elem())
+	if pan := verifkit.Guard(func() { rest2, err2 = UnmarshalWithParams(data, c.reuse.Interface(), c.params) }); pan != "" {
+		c09Fail(out, "panic<"+c09PanicClass(pan)+">", c.flags, op, "decoding into a reused destination: "+pan)
+		c.reuse = reflect.Value{}
+		return
+	}
+	if got := c09ShowS(c.t, c.reuse.Elem()); err2 != nil || got != vs || !bytes.Equal(rest2, res.rest) {
+		c09Fail(out, "reuse", c.flags, op, fmt.Sprintf("decoded into a destination holding %s: got %s (err=%v), a fresh destination gives %s", before, got, err2, vs))
+		c.reuse = reflect.Value{}
+	}
 }
 
 var c09FailCount = map[string]int{}
